@@ -34,6 +34,7 @@ fn data_of(d: &str) -> Bytes {
         "empty" => Bytes::new(),
         "one" => Bytes::from_static(b"<"),
         "bin" => Bytes::from((0u8..=255).collect::<Vec<u8>>()),
+        "vast" => Bytes::from((0..(9 * 1024 * 1024 + 5) as u32).map(|i| (i * 11 + (i >> 13)) as u8).collect::<Vec<u8>>()),
         "huge" => Bytes::from((0..1_500_000u32).map(|i| (i * 13 + (i >> 9)) as u8).collect::<Vec<u8>>()),
         _ => Bytes::from((0..10_000u32).map(|i| (i * 7) as u8).collect::<Vec<u8>>()),
     }
@@ -127,7 +128,9 @@ fn replay_doc(s: &mut Summary, c: &Value) {
                 let els: Vec<DeltaElement> = elems
                     .iter()
                     .map(|e| {
-                        let (u, h) = (rsync_uri(e["uri"].as_str().unwrap()), hash_of(e["hash"].as_str().unwrap()));
+                        let u = rsync_uri(e["uri"].as_str().unwrap());
+                        // ("self": the hash of the element's own data)
+                        let h = if e["hash"] == "self" { Hash::from_data(&data_of(e["data"].as_str().unwrap())) } else { hash_of(e["hash"].as_str().unwrap()) };
                         match e["t"].as_str().unwrap() {
                             "publish" => PublishElement::new(u, data_of(e["data"].as_str().unwrap())).into(),
                             "update" => UpdateElement::new(u, h, data_of(e["data"].as_str().unwrap())).into(),
